@@ -5,6 +5,7 @@ import (
 
 	"github.com/jotaen/klog/klog"
 	"github.com/jotaen/klog/klog/app/cli/report"
+	"github.com/jotaen/klog/klog/parser"
 	"github.com/jotaen/klog/klog/service"
 	zz "github.com/jotaen/klog/klog/zzverif"
 )
@@ -176,4 +177,96 @@ func ZZ_C12_ReportVsTotal() {
 		return // nothing matched the filter: report prints nothing
 	}
 	zz.Assert(last == tot, "report-grand-total-equals-klog-total")
+}
+
+// ZZ_C12_PrintWithTotals: `klog print --with-totals` on every conforming generated
+// document: removing the prefix column gives the plain print output; the first line
+// of every record carries the record's total, every entry's first line carries the
+// entry's total, and the entry values add up to the record value.
+func ZZ_C12_PrintWithTotals() {
+	d := parser.ZZGenDoc(zz.Param("L"), false)
+	if !d.Accept() {
+		zz.Stop()
+	}
+	rs, _, errs := parser.NewSerialParser().Parse(d.Text())
+	if errs != nil || len(rs) == 0 {
+		zz.Stop()
+	}
+	now := gotime.Date(2030, 1, 1, 12, 0, 0, 0, gotime.UTC)
+	ctx1 := newZZContext(d.Text(), now)
+	p1 := &Print{WithTotals: true}
+	p1.NoWarn = true
+	e1 := p1.Run(ctx1)
+	ctx2 := newZZContext(d.Text(), now)
+	p2 := &Print{}
+	p2.NoWarn = true
+	e2 := p2.Run(ctx2)
+	zz.Assert(e1 == nil && e2 == nil, "print-succeeds")
+	if e1 != nil || e2 != nil {
+		return
+	}
+	with, plain := zzSplit(ctx1.printed), zzSplit(ctx2.printed)
+	zz.Assert(len(with) == len(plain), "with-totals-adds-no-lines")
+	if len(with) != len(plain) {
+		return
+	}
+	sep := "  |  "
+	rec := -1       // index of the current record
+	entrySum := 0   // sum of the entry prefixes of the current record
+	entryCount := 0 // number of entry prefixes of the current record
+	recTotal := 0   // the record prefix
+	inRecord := false
+	closeRecord := func() {
+		if inRecord {
+			zz.Assert(entrySum == recTotal, "entry-values-add-up-to-record-value")
+			zz.Assert(entryCount == len(rs[rec].Entries()), "one-value-per-entry")
+		}
+		inRecord = false
+	}
+	for i := range with {
+		w, p := zzStrip(with[i]), zzStrip(plain[i])
+		if p == "" {
+			zz.Assert(w == "", "with-totals-adds-no-lines")
+			closeRecord()
+			continue
+		}
+		cut := -1
+		for k := 0; k+len(sep) <= len(w); k++ {
+			if w[k:k+len(sep)] == sep {
+				cut = k
+				break
+			}
+		}
+		zz.Assert(cut >= 0 && w[cut+len(sep):] == p, "line-without-prefix-equals-plain-print")
+		if cut < 0 {
+			return
+		}
+		prefix := w[:cut]
+		for len(prefix) > 0 && prefix[0] == ' ' {
+			prefix = prefix[1:]
+		}
+		if !inRecord {
+			rec++
+			inRecord, entrySum, entryCount = true, 0, 0
+			zz.Assert(rec < len(rs), "one-block-per-record")
+			if rec >= len(rs) {
+				return
+			}
+			zz.Assert(prefix == service.Total(rs[rec]).ToString(), "record-line-carries-record-total")
+			recTotal = service.Total(rs[rec]).InMinutes()
+			continue
+		}
+		if prefix == "" {
+			continue
+		}
+		zz.Assert(entryCount < len(rs[rec].Entries()), "one-value-per-entry")
+		if entryCount < len(rs[rec].Entries()) {
+			e := rs[rec].Entries()[entryCount]
+			zz.Assert(prefix == e.Duration().ToString(), "entry-line-carries-entry-total")
+			entrySum += e.Duration().InMinutes()
+		}
+		entryCount++
+	}
+	closeRecord()
+	zz.Assert(rec == len(rs)-1, "one-block-per-record")
 }
